@@ -253,9 +253,12 @@ def corpus():
     c1 = {'kind': 'exp', 'start': {'form': 'zbl', 'params': [14.0, 8.0]}, 'end': {'form': 'buck', 'params': [180003.0, 0.3, 32.0]}, 'detach': 0.8, 'attach': 1.4, 'route': 'modifier'}
     c2 = {'kind': 'buck4', 'start': {'form': 'bornmayer', 'params': [11272.6, 0.1363]}, 'end': {'form': 'buck', 'params': [0.0, 1.0, 134.0]}, 'detach': 1.2, 'r_min': 2.1, 'attach': 2.6, 'route': 'form'}
     c3 = {'kind': 'exp', 'start': {'form': 'coul', 'params': [2.0, -1.0]}, 'end': {'form': 'buck', 'params': [1000.0, 0.25, 30.0]}, 'detach': 1.0, 'attach': 2.5, 'route': 'class'}   # negative values: shifted
+    # whole-number knots, written without a decimal point (the model file keeps them as Python ints): the same spline as with 1.0 2.0 3.0
+    c4 = {'kind': 'buck4', 'start': {'form': 'bornmayer', 'params': [11272.6, 0.1363]}, 'end': {'form': 'buck', 'params': [0.0, 1.0, 134.0]}, 'detach': 1, 'r_min': 2, 'attach': 3, 'route': 'form'}
+    c5 = {'kind': 'exp', 'start': {'form': 'bornmayer', 'params': [1000.0, 0.5]}, 'end': {'form': 'buck', 'params': [500.0, 0.5, 10.0]}, 'detach': 1, 'attach': 2, 'route': 'modifier'}
     out = []
     rng = random.Random(10)
-    for c in (c1, c2, c3):
+    for c in (c1, c2, c3, c4, c5):
         c['rs'] = sample_rs(rng, c); out.append(c)
     return out
 
